@@ -13,8 +13,12 @@ from .. import runwrap
 
 def run(ctx):
     cfgs = ["RunWrapper.cfg"] if ctx.quick else ["RunWrapper.cfg", "RunWrapper_wide.cfg"]
-    for cfg in cfgs:
-        cases, r = runwrap.tlc_configs(ctx, cfg)
+    for cfg in cfgs + ["RunWrapper_many.cfg"]:
+        if "many" in cfg:
+            # many cells (33..257): configurations drawn by TLC's simulation mode, one behaviour per configuration
+            cases, r = runwrap.tlc_configs(ctx, cfg, module="MCRunWrapper", simulate="num=%d" % (2 if ctx.quick else 12), depth=3000, workers=4)
+        else:
+            cases, r = runwrap.tlc_configs(ctx, cfg)
         draws = 1 if ctx.quick or "wide" in cfg else 3
         s, bad = runwrap.run_engine(ctx, cases, ["-draws", str(draws)])
         if bad:
